@@ -48,6 +48,7 @@ var cliDocs = map[string]string{
 	"malformed": "- a\n  -\n",
 	"empty":     "",
 	"hostile":   "- a\n  - x/y\n",
+	"dot":       "- .\n  - a\n    - b\n  - c\n", // the target directory itself as the root (f.x is left out: strict mode would need its kind)
 }
 
 func (inv cliInv) argv() []string {
